@@ -370,7 +370,9 @@ def run(cx):
         def eligible_has_address(site, b):
             # the dial loop only sees peers that passed the eligibility filter, which requires a non-empty address list
             for k in prog.children(b):
-                if any(name_matches(c.fn, "vec::Vec::is_empty") for c in k.calls()) and any(name_matches(c.fn, f"{CM}::ActivePeersInner::contains") for c in k.calls()):
+                ko_ = Origins(k)
+                if any(name_matches(c.fn, "vec::Vec::is_empty") for c in k.calls()) and \
+                        any(name_matches(c.fn, "HashMap::contains_key") and mentions_field(ko_.of_operand(c.args[0]), "connections") for c in k.calls()):
                     return True
             return False
         PIN = "anemo::config::EndpointConfig::client_config_with_expected_server_identity"
